@@ -1978,7 +1978,82 @@ func (r *Run) chunkSliceProver(fn *ssa.Function, e ast.Expr) (string, bool) {
 			}
 			if lc, ok := viaCell(unwrap(quo.X)).(*ssa.Call); ok {
 				if b, ok := lc.Call.Value.(*ssa.Builtin); ok && b.Name() == "len" && types.Identical(lc.Call.Args[0].Type(), sl.X.Type()) {
-					isBody = true
+					// the list whose length was taken is the list that is cut: one parameter of the
+					// fan-out's function, never assigned again (third audit: `inputs = lo.Filter(…)`
+					// after the length was taken)
+					param := func(v ssa.Value) *ssa.Parameter {
+						v = unwrap(v)
+						if ld, ok := v.(*ssa.UnOp); ok && ld.Op == token.MUL {
+							if al, ok := ld.X.(*ssa.Alloc); ok {
+								if sts := storesTo(al); len(sts) == 1 {
+									v = sts[0].Val
+								}
+							}
+						}
+						if al, ok := v.(*ssa.Alloc); ok { // the cell itself (a binding)
+							if sts := storesTo(al); len(sts) == 1 {
+								v = sts[0].Val
+							}
+						}
+						p, _ := v.(*ssa.Parameter)
+						return p
+					}
+					pLen := param(lc.Call.Args[0])
+					var pUsed *ssa.Parameter
+					switch x := sl.X.(type) {
+					case *ssa.FreeVar, *ssa.UnOp:
+						var fv *ssa.FreeVar
+						if f, ok := x.(*ssa.FreeVar); ok {
+							fv = f
+						} else if ld := x.(*ssa.UnOp); ld.Op == token.MUL {
+							fv, _ = ld.X.(*ssa.FreeVar)
+						}
+						if fv != nil {
+							for _, i3 := range allInstrs(site) {
+								if mc, ok := i3.(*ssa.MakeClosure); ok && mc.Fn == ssa.Value(fn) {
+									for k, fvk := range fn.FreeVars {
+										if fvk == fv && k < len(mc.Bindings) {
+											pUsed = param(mc.Bindings[k])
+										}
+									}
+								}
+							}
+						}
+					case *ssa.Parameter:
+						// the delegate's parameter: what the closure passes for it
+						for _, e := range r.P.CG.In[fn] {
+							if e.Kind != "static" {
+								continue
+							}
+							for k, a := range e.Site.Common().Args {
+								if k < len(fn.Params) && fn.Params[k] == x {
+									v := unwrap(a)
+									if ld, ok := v.(*ssa.UnOp); ok && ld.Op == token.MUL {
+										if fv, ok := ld.X.(*ssa.FreeVar); ok {
+											v = fv
+										}
+									}
+									if fv, ok := v.(*ssa.FreeVar); ok {
+										caller := e.Caller
+										for _, i3 := range allInstrs(site) {
+											if mc, ok := i3.(*ssa.MakeClosure); ok && mc.Fn == ssa.Value(caller) {
+												for k2, fvk := range caller.FreeVars {
+													if fvk == fv && k2 < len(mc.Bindings) {
+														pUsed = param(mc.Bindings[k2])
+													}
+												}
+											}
+										}
+									} else {
+										pUsed = param(v)
+									}
+								}
+							}
+						}
+					}
+					if pLen != nil && pLen == pUsed && pLen.Parent() == site {
+						isBody = true
+					}
 				}
 			}
 		}
